@@ -104,6 +104,7 @@ fn table_ref(f: &From_) -> TableRef {
             rows.iter().map(|r| ValueTuple::Many(r.clone())).collect(),
             a(al).into_iden(),
         ),
+        From_::Func(name, args, al) => TableRef::FunctionCall(Func::cust(a(name)).args(args.iter().map(|x| x.build())), a(al).into_iden()),
     }
 }
 
@@ -134,6 +135,13 @@ fn add_from(s: &mut SelectStatement, f: &From_) {
         }
         From_::Values(rows, al) => {
             s.from_values(rows.iter().map(|r| ValueTuple::Many(r.clone())), a(al));
+        }
+        From_::Func(name, args, al) => {
+            if route(2) == 0 {
+                s.from_function(Func::cust(a(name)).args(args.iter().map(|x| x.build())), a(al));
+            } else {
+                s.from(table_ref(f));
+            }
         }
     }
 }
